@@ -50,6 +50,8 @@ def correspond(ctx):
     # the first cycles on a pool of repeated measurements (cold start, duplicates, small batches)
     _pool.explore(ctx, "C01", per_spec=5 if not ctx.thorough else 30, sizes=(6, 14), colddup=True)
     _pool.explore(ctx, "C01", per_spec=40 if not ctx.thorough else 200, sizes=(6, 14), colddup=True, skeleton="B")
+    # late in a run on a large dense pool (about two hundred labeled samples on top of each other)
+    _pool.explore(ctx, "C01", per_spec=1 if not ctx.thorough else 4, sizes=(185, 230), dense=True)
     _zoo_pool.run(ctx, "C01", [ctx.seed] if not ctx.thorough else [ctx.seed + 31 * k for k in range(4)], per_case_modes=None if ctx.thorough else 2)
 
 
